@@ -9,20 +9,74 @@ package sign
 //     revocationHTTPClient wires it, except that resolver and dial function are the recording fakes;
 //  3. probes the dial guard installed in the REAL client (net.DefaultResolver = fake name server, unknown network name).
 //
+// History cases (VERIF_NET_MODE=hist: a case carries the earlier fetches of its process in "prev") run in a process of
+// their own each; every fetch of the history asks revocationHTTPClient(timeout, allow of THAT fetch) for its client, as
+// checkCertViaCRL / checkCertViaOCSP do, and runs the real fetch path through the guard that client really carries
+// (realGuard), so that anything the package keeps between fetches shows in the recorded connect attempts.
+//
 // Records go to VERIF_NET_FLOWS and VERIF_NET_PROBES; TLC (spec/NetTrace.tla) judges them.
 
 import (
-	"context"
 	"crypto/x509"
 	"fmt"
-	"net"
 	"net/http"
 	"os"
+	"path/filepath"
 	"testing"
 	"time"
 )
 
+const vnetRevTimeout = 5 * time.Second
+
+// vnetRevFetch performs one revocation fetch.  realGuard = false: the guard is the real constructor re-wired with
+// the recording fakes; true: the guard instance inside the client revocationHTTPClient returned.
+func vnetRevFetch(t *testing.T, c vnetCase, realGuard bool) (vnetFlowRec, *http.Transport) {
+	real := revocationHTTPClient(vnetRevTimeout, c.Allow)
+	info, realTr := vnetInspect(real, revocationRedirect)
+	if realTr == nil {
+		t.Fatalf("revocationHTTPClient does not use an *http.Transport: the shim has to be adapted")
+	}
+	run := vnetNewRun(c)
+	tr := realTr.Clone()
+	if realGuard {
+		tr.DialContext = run.wrapHost(run.realGuard(realTr.DialContext))
+	} else {
+		tr.DialContext = run.wrapHost(revocationDialContext(run, run.dial, allowedRevocationHostSet(c.Allow)))
+	}
+	client := *real
+	client.Transport = &vnetRT{run: run, real: tr}
+
+	cert, issuer := &x509.Certificate{}, &x509.Certificate{}
+	first := c.Hops[0].URL
+	outcome := ""
+	switch c.Kind {
+	case "crl":
+		cert.CRLDistributionPoints = []string{first}
+		_, err := processCurrentCRLs(cert, issuer, &client)
+		outcome = fmt.Sprint(err)
+	case "ocsp":
+		_, err := processCurrentOCSPResponse(cert, issuer, &client, []byte{0x30, 0x03, 0x0a, 0x01, 0x00}, first, time.Now())
+		outcome = fmt.Sprint(err)
+	}
+	tr.CloseIdleConnections()
+	return run.finish(info, outcome), realTr
+}
+
 func TestVerifNetRevocation(t *testing.T) {
+	if one := os.Getenv("VERIF_NET_ONE"); one != "" { // child: the histories of this fresh process
+		cases, err := vnetHistChild(one)
+		if err != nil {
+			t.Fatal(err)
+		}
+		vnetInstallResolver()
+		for _, c := range cases {
+			for _, f := range vnetFetches(c) {
+				rec, _ := vnetRevFetch(t, f, true)
+				vnetPrintRec(rec)
+			}
+		}
+		return
+	}
 	in, flowsOut, probesOut := os.Getenv("VERIF_NET_CASES"), os.Getenv("VERIF_NET_FLOWS"), os.Getenv("VERIF_NET_PROBES")
 	if in == "" || flowsOut == "" || probesOut == "" {
 		t.Skip("VERIF_NET_CASES / VERIF_NET_FLOWS / VERIF_NET_PROBES not set")
@@ -39,35 +93,21 @@ func TestVerifNetRevocation(t *testing.T) {
 	if err != nil {
 		t.Fatal(err)
 	}
+	if os.Getenv("VERIF_NET_MODE") == "hist" {
+		nproc, err := vnetHistParent("TestVerifNetRevocation", cases, fw, filepath.Dir(flowsOut))
+		if err != nil {
+			t.Fatal(err)
+		}
+		fw.close()
+		pw.close()
+		fmt.Printf("SUMMARY {\"flows\":%d,\"probes\":0,\"dns_queries\":0,\"dns_rebinds\":0,\"processes\":%d}\n", fw.n, nproc)
+		return
+	}
 	vnetInstallResolver()
-	cert, issuer := &x509.Certificate{}, &x509.Certificate{}
 	probed := map[string]bool{}
 	for _, c := range cases {
-		real := revocationHTTPClient(5*time.Second, c.Allow)
-		info, realTr := vnetInspect(real, revocationRedirect)
-		if realTr == nil {
-			t.Fatalf("revocationHTTPClient does not use an *http.Transport: the shim has to be adapted")
-		}
-		run := vnetNewRun(c)
-		tr := realTr.Clone()
-		guard := revocationDialContext(run, run.dial, allowedRevocationHostSet(c.Allow))
-		tr.DialContext = run.wrapHost(guard)
-		client := *real
-		client.Transport = &vnetRT{run: run, real: tr}
-
-		first := c.Hops[0].URL
-		outcome := ""
-		switch c.Kind {
-		case "crl":
-			cert.CRLDistributionPoints = []string{first}
-			_, err := processCurrentCRLs(cert, issuer, &client)
-			outcome = fmt.Sprint(err)
-		case "ocsp":
-			_, err := processCurrentOCSPResponse(cert, issuer, &client, []byte{0x30, 0x03, 0x0a, 0x01, 0x00}, first, time.Now())
-			outcome = fmt.Sprint(err)
-		}
-		tr.CloseIdleConnections()
-		fw.put(run.finish(info, outcome))
+		rec, realTr := vnetRevFetch(t, c, false)
+		fw.put(rec)
 
 		// the guard of the real client object
 		for _, hp := range c.Hops {
@@ -87,7 +127,3 @@ func TestVerifNetRevocation(t *testing.T) {
 	pw.close()
 	fmt.Printf("SUMMARY {\"flows\":%d,\"probes\":%d,\"dns_queries\":%d,\"dns_rebinds\":%d}\n", fw.n, pw.n, vnetQueries, vnetRebinds)
 }
-
-var _ = context.Background
-var _ net.IP
-var _ http.Client
